@@ -753,6 +753,9 @@ class Name:
                         out += label.lower()
                     else:
                         out += label
+                if len(out) > 255:
+                    # The concatenation with the origin is not a legal name.
+                    raise NameTooLong
             return bytes(out)
 
         labels: Iterable[bytes]
